@@ -41,6 +41,9 @@ type Program struct {
 
 	BuildTags []string
 	GOARCH    string
+
+	cellCache      map[*ssa.Function]map[*ssa.Alloc]*cellInfo
+	allocNameCache map[*ssa.Alloc]string
 }
 
 // LoadOpts selects a build configuration.
